@@ -15,7 +15,7 @@ RULE = (
     "(lookup tables with random coset labelling, conditional-xor forms) for Simon; exact output distribution of the algorithm circuit by sparse state-vector "
     "simulation, decoded outputs compared in the argument type; non-trivial = the black box depends on its input (or is one of the two constants); distinct by case"
 )
-DECIDING = ["dj_checked", "bv_checked", "simon_checked", "decode_checked"]
+DECIDING = ["decode_counts_checked", "decode_counts_discard_checked", "dj_checked", "bv_checked", "simon_checked", "decode_checked"]
 ASSUMPTIONS = ["own sparse state-vector simulator", "a black box that already fails the C02/C03/C06 monitors is blamed on that root cause (DESIGN 4.5)"]
 CASE_TIMEOUT = {"quick": 60, "thorough": 180}
 
@@ -193,6 +193,36 @@ def check(case):
             if str(r2) != str(r):
                 fail(f"{algo}_decode_full_string", f"form {fname}: decode_output({full!r}) = {r2!r} but decode_output({reading(y)!r}) = {r!r}")
             return r
+
+        # decode_counts over whole-register measurements: the other qubits (the |-> result qubit, ancillas) split every
+        # outcome over several raw strings; the decoded counts are the image, and discard_lower applies to the decoded totals
+        try:
+            pr = np.abs(st.amp) ** 2
+            nqa = qc.num_qubits
+            raw = {}
+            for ix, pz in zip(st.idx.tolist(), pr.tolist()):
+                c = int(round(pz * 4096))
+                if c > 0:
+                    raw[format(ix, f"0{nqa}b")] = c
+            if raw and nqa <= 40:
+                img = {}
+                for rs, c in raw.items():
+                    v = alg.decode_output(rs)
+                    img[v] = img.get(v, 0) + c
+                got_all = alg.decode_counts(dict(raw))
+                cnt["decode_counts_checked"] = cnt.get("decode_counts_checked", 0) + 1
+                if got_all != img:
+                    fail(f"{algo}_decode_counts", f"form {fname}: decode_counts over {len(raw)} raw strings = {got_all}, the image under decode_output is {img}")
+                top_raw, top = max(raw.values()), max(img.values())
+                for thr in sorted({top, (top_raw + top) // 2 + 1, top_raw + 1}):
+                    if thr <= top:
+                        got_t = alg.decode_counts(dict(raw), discard_lower=thr)
+                        exp_t = {k: v for k, v in img.items() if v >= thr}
+                        cnt["decode_counts_discard_checked"] = cnt.get("decode_counts_discard_checked", 0) + 1
+                        if got_t != exp_t:
+                            fail(f"{algo}_decode_counts_discard", f"form {fname}: decode_counts(discard_lower={thr}) = {got_t}; decoded totals are {img} (largest raw string count {top_raw})")
+        except Exception as e:
+            fail(f"{algo}_decode_counts_exception", f"form {fname}: {type(e).__name__}: {e}")
 
         def val_ok(got, y):
             expv = codec.decode(argt, [(y >> i) & 1 for i in range(n)])
